@@ -44,7 +44,8 @@ PROPS = {
     "C29": P("hbtp", "rapid-generated validator sets and signature vectors (by-construction classes: valid, absent, wrong index, foreign key, other decision, "
              "unrecoverable) encoded as wire bytes, against a reference predicate",
              "Every drawn vector is judged by the predicate 'all present entries are validator i's own signature over this decision and 3*present>2n'; "
-             "counts are biased to the 2/3 boundary, both accept and reject are demanded and a panic is a violation. Exploration: n<=10, distinct keys.",
+             "counts are biased to the 2/3 boundary, both accept and reject are demanded and a panic is a violation; a further sub-check runs sequences of part and proof "
+             "verifications for two decisions on ONE proof context object (what an earlier call verified must not matter). Exploration: n<=10, distinct keys.",
              "trusts crypto.NewSignature/dcrd for producing valid signatures; duplicate validator keys are not decided", "DESIGN §7 (C29)", shards=8),
     "C30": P("hnet", "round trip of generated packet sequences through drawn stream chunkings + single-byte substitution must-reject + round-trip oracle on "
              "arbitrary accepted input (rapid; native go fuzz in thorough)",
@@ -108,14 +109,16 @@ PROPS = {
              "works at merkle.Builder level (the sync2 network layer is not exercised); the harness trie.Object type is trusted", "DESIGN §7 (C20)"),
     "C21": P("hdata", "rapid tuple pairs with equal concatenation; container state machines vs slices/maps in a shared store",
              "Injectivity and grouping-independence of the Hash, RLP and PrefixedHash keys and the SplitKeys round trip over typed parts at RLP boundaries; adversarially "
-             "named containers are compared with their reference after every operation. Exploration.",
+             "named containers are compared with their reference after every operation; sibling builders / sub-dictionary handles derived from one parent are kept alive "
+             "together and used in creation order. Exploration.",
              "part bytes are computed by the harness; RawBuilder and raw prefixes of different lengths are excluded by design; hash collisions are assumed away",
              "DESIGN §7 (C21)"),
     "C01": P("hsim", "rapid-drawn schedules over 3..7 real consensus engines (real block managers, real file WAL) with a harness-owned network, timers fired through "
              "their real closures, Byzantine keys (equivocating votes, two valid blocks, POL re-proposals), a scripted split-lock adversary, crashes with torn "
              "WAL tails; history invariants: agreement and a >2/3 precommit certificate for every finalized block",
              "Agreement and the commit certificate are checked after every event of each generated history (deliveries incl. duplicates/reordering/loss, timeouts, "
-             "block-manager completions, Byzantine messages, crash/restart). Exploration: schedules are sampled, not enumerated; deep lock/unlock scenarios are "
+             "block-manager completions, Byzantine messages incl. fast-sync block results with genuine, partial, repeated, mixed-round and foreign commit vote lists, "
+             "transactions entering node pools, crash/restart). Exploration: schedules are sampled, not enumerated; deep lock/unlock scenarios are "
              "reached only through the scripted adversary plus noise; liveness is not examined.",
              "database durable across engine crashes; block manager object survives an engine restart; hooks consensus/verif_hooks_sim.go expose state, the pending "
              "timer and message constructors only", "DESIGN §4 (C01)", qt=1200, tt=3400),
@@ -191,7 +194,8 @@ PROPS = {
     "C08": P("hblock", "rapid: real chains -> round trip, body-component grafts and byte mutations through BlockDataFactory with a header-vs-decoded-content hash "
              "oracle and a runaway watchdog; native go fuzz in thorough",
              "Every decoded input is checked against hashes recomputed from the decoded content and the header read from the input bytes; thousands of grafts and "
-             "byte mutations per run incl. non-empty BTP digests; a decoder that does not return while allocating >1 GiB is a violation. Exploration + "
+             "byte mutations per run incl. non-empty BTP digests; every accepted block, whatever bytes it came from, must decode from its own serialization to the same id "
+             "(fixed point); a decoder that does not return while allocating >1 GiB is a violation. Exploration + "
              "coverage-guided fuzzing.",
              "trusts goloop's tx-list hash and codec for recomputation; time-only hangs are inconclusive", "DESIGN §5 (C08)", fuzz=[("FuzzC08Decode", 180)]),
     "C22": P("hdata2", "enumerated boundary sizes plus rapid sizes; index and order identity on built and re-opened lists of real transactions and receipts",
@@ -201,7 +205,8 @@ PROPS = {
     "C23": P("hdata2", "rapid (round trip, determinism and sorted keys via an independent RLP splitter, narrowing, must-reject, mutation decoding into 20 targets with "
              "a fixed-point and decoder-state canary) plus native go fuzz in thorough",
              "Values of a broad supported-type family round-trip with nil and empty kept apart and deterministic sorted-map encodings; out-of-range numbers, truncated "
-             "inputs and inflated sizes are rejected by every target; arbitrary bytes never crash any target and never disturb a later decode. Exploration + fuzzing.",
+             "inputs and inflated sizes are rejected by every target; arbitrary bytes never crash any target and never disturb a later decode; lists with surplus members, "
+             "values written through the explicit list API, an older reader of a newer encoding and Decoder.Skip keep the following stream intact. Exploration + fuzzing.",
              "'supported' as read from encodeValue/decodeValue; pointer-to-container and interface fields are excluded; msgpack is not covered", "DESIGN §7 (C23)",
              fuzz=[("FuzzC23Decode", 180)]),
     "C24": P("hdata2", "rapid; independent math/big two's-complement reference and a second text parser over boundary-biased 64-bit and big integers",
@@ -225,7 +230,8 @@ PROPS = {
              "every rewind is compared with fresh accumulation, including forks. Exploration up to 5000 (quick) / 70000 (thorough) leaves.",
              "leaves are distinct SHA3 values; MapDB is the store", "DESIGN §7 (C28)"),
     "C34": P("hicon", "rapid state machine over icsim at the latest revision with a receipt-driven ledger and invariants I1-I4 compared after every block",
-             "Random multi-term histories of valid and invalid staking, delegation, bond, transfer, registration and claim transactions run on the real extension state; "
+             "Random multi-term histories of valid and invalid (over-spend, votes above stake, bond moves beyond the unused stake, non-bonder, duplicate registration) "
+             "staking, delegation, bond, transfer, registration and claim transactions run on the real extension state; "
              "after every block exact per-account balances, stake, votes, supply conservation, network totals and per-entry unstake expiry are compared. Exploration.",
              "trusts icsim's world/transfer model and receipt status; penalties, unregistration and fees are out of scope; icsim configured with Rrep != 0 and a "
              "funded treasury", "DESIGN §9 (C34)"),
